@@ -48,6 +48,9 @@ func init() {
 				if s < 0 || (st.A[0] == 3 && s >= numB64) || (st.A[0] != 3 && s >= len(w.B)) {
 					return false
 				}
+				if (st.A[0] == 3 && w.X.B64[s].M.Card() > GiantCard) || (st.A[0] != 3 && w.giant(s)) {
+					return false // results are compared element-wise
+				}
 			}
 			return true
 		},
